@@ -156,6 +156,114 @@ theorem seg_intersects_iff (s o : Seg K) :
   · rintro ⟨h1, h2, t, u, h3⟩
     exact ⟨(t, u), (seg_intersection_iff s o t u).mpr ⟨h1, h2, h3⟩⟩
 
+/-- **The property's wording, literally**: two segments are reported as intersecting exactly when
+they share no endpoint (the code's four `==` tests) and cross at a single point, i.e. exactly one
+pair of parameters in `[0,1]²` denotes a common point.  (Parallel overlapping segments have
+several such pairs or none; a unique common point of parallel segments is a common endpoint.) -/
+theorem seg_intersects_iff_unique_crossing (s o : Seg K) :
+    s.intersects o = true ↔
+      ¬ (s.b = o.b ∨ s.a = o.a ∨ s.a = o.b ∨ s.b = o.a)
+      ∧ ∃! p : K × K, 0 ≤ p.1 ∧ p.1 ≤ 1 ∧ 0 ≤ p.2 ∧ p.2 ≤ 1 ∧ s.sample p.1 = o.sample p.2 := by
+  rw [seg_intersects_iff]
+  constructor
+  · rintro ⟨hsh, hd, t, u, h0, h1, h2, h3, hs⟩
+    refine ⟨hsh, (t, u), ⟨h0, h1, h2, h3, hs⟩, ?_⟩
+    rintro ⟨t', u'⟩ ⟨_, _, _, _, hs'⟩
+    have hd' : s.ixDet o ≠ 0 := hd
+    obtain ⟨a1, a2⟩ := (sample_eq_iff s o t u hd').mp hs
+    obtain ⟨b1, b2⟩ := (sample_eq_iff s o t' u' hd').mp hs'
+    simp only [Prod.mk.injEq]
+    exact ⟨b1.trans a1.symm, b2.trans a2.symm⟩
+  · rintro ⟨hsh, ⟨t, u⟩, ⟨h0, h1, h2, h3, hs⟩, huniq⟩
+    simp only at h0 h1 h2 h3 hs
+    refine ⟨hsh, ?_, t, u, h0, h1, h2, h3, hs⟩
+    intro hd
+    have hx := congrArg P.x hs
+    have hy := congrArg P.y hs
+    simp only [geom, Nat.cast_one] at hx hy hd
+    have s0 : s.sample 0 = s.a := by geom_ring
+    have s1 : s.sample 1 = s.b := by geom_ring
+    have o0 : o.sample 0 = o.a := by geom_ring
+    have o1 : o.sample 1 = o.b := by geom_ring
+    -- not at a corner of the parameter square: that would be a shared endpoint
+    have hnc : ¬ ((t = 0 ∨ t = 1) ∧ (u = 0 ∨ u = 1)) := by
+      rintro ⟨ht | ht, hu | hu⟩
+      · rw [ht, hu, s0, o0] at hs; exact hsh (Or.inr (Or.inl hs))
+      · rw [ht, hu, s0, o1] at hs; exact hsh (Or.inr (Or.inr (Or.inl hs)))
+      · rw [ht, hu, s1, o0] at hs; exact hsh (Or.inr (Or.inr (Or.inr hs)))
+      · rw [ht, hu, s1, o1] at hs; exact hsh (Or.inl hs)
+    -- a second solution (t2, u2) contradicts uniqueness
+    have second : ∀ t2 u2 : K, 0 ≤ t2 → t2 ≤ 1 → 0 ≤ u2 → u2 ≤ 1 → s.sample t2 = o.sample u2 →
+        (t2 ≠ t ∨ u2 ≠ u) → False := by
+      intro t2 u2 a1 a2 a3 a4 hs2 hne
+      have := huniq (t2, u2) ⟨a1, a2, a3, a4, hs2⟩
+      simp only [Prod.mk.injEq] at this
+      rcases hne with h | h
+      · exact h this.1
+      · exact h this.2
+    by_cases hv1 : s.a = s.b
+    · -- `s` is a point: every parameter of `s` denotes it
+      have hc : ∀ t2 : K, s.sample t2 = s.sample t := by
+        intro t2; apply P.ext' <;> (simp only [geom, Nat.cast_one, hv1]; ring)
+      by_cases ht : t = 0
+      · exact second 1 u zero_le_one (le_refl _) h2 h3 ((hc 1).trans hs) (Or.inl (by rw [ht]; exact one_ne_zero))
+      · exact second 0 u (le_refl _) zero_le_one h2 h3 ((hc 0).trans hs) (Or.inl (fun h => ht h.symm))
+    by_cases hv2 : o.a = o.b
+    · have hc : ∀ u2 : K, o.sample u2 = o.sample u := by
+        intro u2; apply P.ext' <;> (simp only [geom, Nat.cast_one, hv2]; ring)
+      by_cases hu : u = 0
+      · exact second t 1 h0 h1 zero_le_one (le_refl _) (hs.trans (hc 1).symm) (Or.inr (by rw [hu]; exact one_ne_zero))
+      · exact second t 0 h0 h1 (le_refl _) zero_le_one (hs.trans (hc 0).symm) (Or.inr (fun h => hu h.symm))
+    -- both proper and parallel: slide along the common direction
+    have hn1 : 0 < (s.b.x - s.a.x) * (s.b.x - s.a.x) + (s.b.y - s.a.y) * (s.b.y - s.a.y) := by
+      by_contra hn
+      have e1 : (s.b.x - s.a.x) * (s.b.x - s.a.x) = 0 := by
+        linarith [mul_self_nonneg (s.b.x - s.a.x), mul_self_nonneg (s.b.y - s.a.y)]
+      have e2 : (s.b.y - s.a.y) * (s.b.y - s.a.y) = 0 := by
+        linarith [mul_self_nonneg (s.b.x - s.a.x), mul_self_nonneg (s.b.y - s.a.y)]
+      exact hv1 (P.ext' (by linarith [mul_self_eq_zero.mp e1]) (by linarith [mul_self_eq_zero.mp e2]))
+    have hn2 : 0 < (o.b.x - o.a.x) * (o.b.x - o.a.x) + (o.b.y - o.a.y) * (o.b.y - o.a.y) := by
+      by_contra hn
+      have e1 : (o.b.x - o.a.x) * (o.b.x - o.a.x) = 0 := by
+        linarith [mul_self_nonneg (o.b.x - o.a.x), mul_self_nonneg (o.b.y - o.a.y)]
+      have e2 : (o.b.y - o.a.y) * (o.b.y - o.a.y) = 0 := by
+        linarith [mul_self_nonneg (o.b.x - o.a.x), mul_self_nonneg (o.b.y - o.a.y)]
+      exact hv2 (P.ext' (by linarith [mul_self_eq_zero.mp e1]) (by linarith [mul_self_eq_zero.mp e2]))
+    set α := (s.b.x - s.a.x) * (o.b.x - o.a.x) + (s.b.y - s.a.y) * (o.b.y - o.a.y) with hα
+    set β := (s.b.x - s.a.x) * (s.b.x - s.a.x) + (s.b.y - s.a.y) * (s.b.y - s.a.y) with hβ
+    have hα0 : α ≠ 0 := by
+      intro h0'
+      have : α * α = β * ((o.b.x - o.a.x) * (o.b.x - o.a.x) + (o.b.y - o.a.y) * (o.b.y - o.a.y)) := by
+        rw [hα, hβ]
+        linear_combination (-((s.b.x - s.a.x) * (o.b.y - o.a.y) - (s.b.y - s.a.y) * (o.b.x - o.a.x))) * hd
+      rw [h0', mul_zero] at this
+      exact absurd this.symm (mul_pos hn1 hn2).ne'
+    obtain ⟨ε, hε, b1, b2, b3, b4⟩ := exists_other t u α β hn1 hα0 h0 h1 h2 h3 hnc
+    apply second (t + ε * α) (u + ε * β) b1 b2 b3 b4
+    · apply P.ext'
+      · simp only [geom, Nat.cast_one]
+        rw [hα, hβ]
+        linear_combination hx + (ε * (s.b.y - s.a.y)) * hd
+      · simp only [geom, Nat.cast_one]
+        rw [hα, hβ]
+        linear_combination hy - (ε * (s.b.x - s.a.x)) * hd
+    · right
+      intro h
+      have : ε * β = 0 := by linear_combination h
+      rcases mul_eq_zero.mp this with h' | h'
+      · exact hε h'
+      · exact hn1.ne' h'
+
+/-- non-vacuity: the diagonals of the unit square cross exactly at `(1/2, 1/2)` and share no
+endpoint -/
+example : (⟨⟨0, 0⟩, ⟨1, 1⟩⟩ : Seg ℚ).intersects ⟨⟨0, 1⟩, ⟨1, 0⟩⟩ = true := by
+  unfold Seg.intersects
+  have : (⟨⟨0, 0⟩, ⟨1, 1⟩⟩ : Seg ℚ).intersectionT ⟨⟨0, 1⟩, ⟨1, 0⟩⟩ = some (1/2, 1/2) := by
+    rw [seg_intersection_iff]
+    refine ⟨by simp [P.mk.injEq], by simp only [geom]; norm_num, by norm_num, by norm_num, by norm_num, by norm_num, ?_⟩
+    simp only [geom, P.mk.injEq]; norm_num
+  rw [this]; rfl
+
 /-- `intersection` is the point at the reported parameter, and it lies on both segments -/
 theorem seg_intersection_point (s o : Seg K) (p : P K) (h : s.intersection o = some p) :
     ∃ t u, s.intersectionT o = some (t, u) ∧ p = s.sample t ∧ p = o.sample u := by
@@ -169,6 +277,61 @@ theorem seg_intersection_point (s o : Seg K) (p : P K) (h : s.intersection o = s
     refine ⟨t, u, rfl, h.symm, ?_⟩
     rw [← h]
     exact ((seg_intersection_iff s o t u).mp hr).2.2.2.2.2.2
+
+/-! ### Segment × line -/
+
+/-- **`line_intersection_t` exact**: `some t` iff the segment is not parallel to the line, `t` is in
+the closed unit interval and the point at `t` lies on the line. -/
+theorem seg_line_intersection_iff (s : Seg K) (l : Line K) (t : K) :
+    s.lineIntersectionT l = some t ↔
+      s.toVector.cross l.vector ≠ 0 ∧ 0 ≤ t ∧ t ≤ 1 ∧ l.vector.cross (s.sample t - l.point) = 0 := by
+  have e : l.vector.cross (s.sample t - l.point) = (l.point - s.a).cross l.vector - t * s.lineDet l := by
+    simp only [geom, Nat.cast_one]; ring
+  unfold Seg.lineIntersectionT
+  by_cases hd0 : (s.lineDet l == (Scalar.zero : K)) = true
+  · have : s.toVector.cross l.vector = 0 := (beq_zero_iff _).mp hd0
+    rw [if_pos hd0]
+    constructor
+    · intro h; cases h
+    · rintro ⟨h, _⟩; exact absurd this h
+  · rw [if_neg hd0]
+    have hd : s.lineDet l ≠ 0 := fun h => hd0 ((beq_zero_iff _).mpr h)
+    have hpos : 0 < |s.lineDet l| := abs_pos.mpr hd
+    have hT : s.lineT l / |s.lineDet l| = (l.point - s.a).cross l.vector / s.lineDet l := signed_div _ _ hd
+    have hz : (Scalar.zero : K) = 0 := by simp [Scalar.zero]
+    have hon : l.vector.cross (s.sample t - l.point) = 0 ↔ t = (l.point - s.a).cross l.vector / s.lineDet l := by
+      rw [e, sub_eq_zero, eq_div_iff hd]
+      exact eq_comm
+    have hr : ¬ (s.lineT l < Scalar.zero ∨ s.lineT l > Scalar.abs (s.lineDet l))
+        ↔ (0 ≤ s.lineT l / |s.lineDet l| ∧ s.lineT l / |s.lineDet l| ≤ 1) := by
+      rw [← range_iff _ _ hpos, hz, sc_abs]
+    by_cases hrange : (s.lineT l < Scalar.zero ∨ s.lineT l > Scalar.abs (s.lineDet l))
+    · rw [if_pos hrange]
+      have hnr := (not_congr hr).mp (not_not.mpr hrange)
+      constructor
+      · intro h; cases h
+      · rintro ⟨_, h0, h1, hs⟩
+        exfalso
+        apply hnr
+        rw [hT, ← hon.mp hs]
+        exact ⟨h0, h1⟩
+    · rw [if_neg hrange]
+      have hin := hr.mp hrange
+      rw [sc_abs, hT] at *
+      constructor
+      · intro h
+        simp only [Option.some.injEq] at h
+        refine ⟨hd, ?_, ?_, hon.mpr h.symm⟩
+        · rw [← h]; exact hin.1
+        · rw [← h]; exact hin.2
+      · rintro ⟨_, _, _, hs⟩
+        rw [hon.mp hs]
+
+/-- non-vacuity: the segment (0,0)–(2,2) meets the vertical line x = 1 at t = 1/2 -/
+example : (⟨⟨0, 0⟩, ⟨2, 2⟩⟩ : Seg ℚ).lineIntersectionT ⟨⟨1, 5⟩, ⟨0, 1⟩⟩ = some (1/2) := by
+  rw [seg_line_intersection_iff]
+  refine ⟨by simp only [geom]; norm_num, by norm_num, by norm_num, ?_⟩
+  simp only [geom, Nat.cast_one]; norm_num
 
 /-! ### Line × line -/
 
@@ -345,9 +508,27 @@ theorem mem_qPush_of (x y t : K) (hu : inUnit t = true) (h : t = x ∨ t = y) : 
     rw [hu, hne]
     exact List.mem_singleton.mpr rfl
 
-/-- **Soundness of the root computation, quadratic branch (`a ≠ 0`).**  Every returned `t` is in
-`[0, 1]` and is a root of `a t² + b t + c`. -/
-theorem quad_solve_sound (hsq : ∀ x : K, 0 ≤ x → Transc.sqrt x * Transc.sqrt x = x) (a b c : K)
+/-- **The linear branch (`a = 0`, `b ≠ 0`)**: the single candidate is `-c / b`, the solution of
+`b·t + c = 0`; it is returned iff it lies in `[0,1]`. -/
+theorem quad_solve_linear (b c : K) (hb : b ≠ 0) :
+    Quad.solve 0 b c = if 0 ≤ -c / b ∧ -c / b ≤ 1 then [-c / b] else [] := by
+  unfold Quad.solve
+  have h0 : ((0:K) == (Scalar.zero : K)) = true := (beq_zero_iff _).mpr rfl
+  have hb' : ¬ (b == (Scalar.zero : K)) = true := fun h => hb ((beq_zero_iff _).mp h)
+  rw [if_pos h0, if_neg hb']
+  by_cases hu : inUnit (-c / b) = true
+  · rw [if_pos hu, if_pos ((inUnit_iff _).mp hu)]
+  · rw [if_neg hu, if_neg (fun h => hu ((inUnit_iff _).mpr h))]
+
+/-- degenerate branch `a = 0`, `b = 0` (the curve's distance to the line is constant: it misses
+the line or lies inside it — no isolated crossing exists): nothing is returned -/
+theorem quad_solve_degenerate (c : K) : Quad.solve 0 0 c = [] := by
+  unfold Quad.solve
+  have h0 : ((0:K) == (Scalar.zero : K)) = true := (beq_zero_iff _).mpr rfl
+  rw [if_pos h0, if_pos h0]
+
+/-- soundness of the root computation, quadratic branch (`a ≠ 0`) -/
+theorem quad_solve_sound_quadratic (hsq : ∀ x : K, 0 ≤ x → Transc.sqrt x * Transc.sqrt x = x) (a b c : K)
     (ha : a ≠ 0) (t : K) (ht : t ∈ Quad.solve a b c) :
     0 ≤ t ∧ t ≤ 1 ∧ a * t * t + b * t + c = 0 := by
   unfold Quad.solve at ht
@@ -376,24 +557,41 @@ theorem quad_solve_sound (hsq : ∀ x : K, 0 ≤ x → Transc.sqrt x * Transc.sq
       · rw [e]; exact ⟨((inUnit_iff _).mp hu).1, ((inUnit_iff _).mp hu).2, r2⟩
   · rw [if_neg hd] at ht; cases ht
 
-/-- non-vacuity of the premises of `quad_solve_sound` / `quad_solve_complete`: `t² − t` has
+/-- non-vacuity of the premises of `quad_solve_sound_quadratic` / `quad_solve_complete_quadratic`: `t² − t` has
 `a = 1 ≠ 0`, discriminant `1 ≥ 0` and the roots `0`, `1` in range (the `sqrt` laws are those of
 `Real.sqrt` on non-negative arguments). -/
 example : (1:ℚ) ≠ 0 ∧ (0:ℚ) ≤ (-1) * (-1) - 4 * 1 * 0 ∧ (1:ℚ) * 1 * 1 + (-1) * 1 + 0 = 0 := by norm_num
 
-/-- **Soundness of `line_intersections_t`, quadratic branch**: every returned parameter is in
-`[0,1]` and its point lies on the line.  (The branch `a = 0` is unsound in the code — see the
-witness below — so the statement carries the hypothesis `liA ≠ 0`.) -/
-theorem quad_line_roots_sound_partial
+/-- **Soundness of the root computation, all branches.**  Every returned `t` is in `[0, 1]` and
+is a root of `a t² + b t + c`. -/
+theorem quad_solve_sound (hsq : ∀ x : K, 0 ≤ x → Transc.sqrt x * Transc.sqrt x = x) (a b c : K)
+    (t : K) (ht : t ∈ Quad.solve a b c) : 0 ≤ t ∧ t ≤ 1 ∧ a * t * t + b * t + c = 0 := by
+  by_cases ha : a = 0
+  · subst ha
+    by_cases hb : b = 0
+    · subst hb; rw [quad_solve_degenerate] at ht; cases ht
+    · rw [quad_solve_linear b c hb] at ht
+      split at ht
+      · rename_i hu
+        rw [List.mem_singleton] at ht
+        subst ht
+        refine ⟨hu.1, hu.2, ?_⟩
+        rw [zero_mul, zero_mul, zero_add, mul_div_cancel₀ _ hb]; ring
+      · cases ht
+  · exact quad_solve_sound_quadratic hsq a b c ha t ht
+
+/-- **Soundness of `line_intersections_t` (full strength, all branches)**: every returned
+parameter is in `[0,1]` and its point lies on the line. -/
+theorem quad_line_roots_sound
     (hsq : ∀ x : K, 0 ≤ x → Transc.sqrt x * Transc.sqrt x = x)
     (hs0 : ∀ x : K, 0 < x → Transc.sqrt x ≠ 0)
-    (q : Quad K) (l : Line K) (ha : q.liA l.equation ≠ 0) (t : K) (ht : t ∈ q.lineIntersectionsT l) :
+    (q : Quad K) (l : Line K) (t : K) (ht : t ∈ q.lineIntersectionsT l) :
     0 ≤ t ∧ t ≤ 1 ∧ l.vector.cross (q.sample t - l.point) = 0 := by
   unfold Quad.lineIntersectionsT at ht
   by_cases hv : (l.vector.x == (Scalar.zero : K) && l.vector.y == (Scalar.zero : K)) = true
   · rw [if_pos hv] at ht; cases ht
   · rw [if_neg hv] at ht
-    obtain ⟨h0, h1, hr⟩ := quad_solve_sound hsq _ _ _ ha t ht
+    obtain ⟨h0, h1, hr⟩ := quad_solve_sound hsq _ _ _ t ht
     refine ⟨h0, h1, ?_⟩
     rw [quad_line_poly] at hr
     have hpos : 0 < -l.vector.y * -l.vector.y + l.vector.x * l.vector.x := by
@@ -408,8 +606,8 @@ theorem quad_line_roots_sound_partial
       exact hv ⟨mul_self_eq_zero.mp hx, neg_eq_zero.mp (mul_self_eq_zero.mp hy)⟩
     exact (line_equation_iff l _ (hs0 _ hpos)).mp hr
 
-/-- **Completeness, quadratic branch (`a ≠ 0`)**: every root in `[0,1]` is returned. -/
-theorem quad_solve_complete (hsq : ∀ x : K, 0 ≤ x → Transc.sqrt x * Transc.sqrt x = x)
+/-- completeness, quadratic branch (`a ≠ 0`): every root in `[0,1]` is returned -/
+theorem quad_solve_complete_quadratic (hsq : ∀ x : K, 0 ≤ x → Transc.sqrt x * Transc.sqrt x = x)
     (hs0 : ∀ x : K, 0 ≤ x → 0 ≤ Transc.sqrt x) (a b c t : K) (ha : a ≠ 0)
     (h0 : 0 ≤ t) (h1 : t ≤ 1) (hroot : a * t * t + b * t + c = 0) : t ∈ Quad.solve a b c := by
   unfold Quad.solve
@@ -472,12 +670,26 @@ theorem quad_solve_complete (hsq : ∀ x : K, 0 ≤ x → Transc.sqrt x * Transc
     · rw [if_pos hsw]; exact mem_qPush_of _ _ _ hu key.symm
     · rw [if_neg hsw]; exact mem_qPush_of _ _ _ hu key
 
-/-- **Completeness of `line_intersections_t`, quadratic branch**: a parameter in `[0,1]` whose
-point lies on the line is returned. -/
+/-- **Completeness of the root computation, all branches**: unless `a = b = 0` (constant distance:
+no isolated crossing), every root in `[0,1]` is returned. -/
+theorem quad_solve_complete (hsq : ∀ x : K, 0 ≤ x → Transc.sqrt x * Transc.sqrt x = x)
+    (hs0 : ∀ x : K, 0 ≤ x → 0 ≤ Transc.sqrt x) (a b c t : K) (hab : ¬ (a = 0 ∧ b = 0))
+    (h0 : 0 ≤ t) (h1 : t ≤ 1) (hroot : a * t * t + b * t + c = 0) : t ∈ Quad.solve a b c := by
+  by_cases ha : a = 0
+  · subst ha
+    have hb : b ≠ 0 := fun h => hab ⟨rfl, h⟩
+    have ht : t = -c / b := by
+      rw [eq_div_iff hb]; linear_combination hroot
+    rw [quad_solve_linear b c hb, ← ht, if_pos ⟨h0, h1⟩]
+    exact List.mem_singleton.mpr rfl
+  · exact quad_solve_complete_quadratic hsq hs0 a b c t ha h0 h1 hroot
+
+/-- **Completeness of `line_intersections_t` (all branches)**: a parameter in `[0,1]` whose point
+lies on the line is returned, unless the curve keeps a constant distance to the line. -/
 theorem quad_line_roots_complete (hsq : ∀ x : K, 0 ≤ x → Transc.sqrt x * Transc.sqrt x = x)
     (hs0 : ∀ x : K, 0 ≤ x → 0 ≤ Transc.sqrt x) (hs1 : ∀ x : K, 0 < x → Transc.sqrt x ≠ 0)
     (q : Quad K) (l : Line K) (hv : ¬ (l.vector.x = 0 ∧ l.vector.y = 0))
-    (ha : q.liA l.equation ≠ 0) (t : K) (h0 : 0 ≤ t) (h1 : t ≤ 1)
+    (ha : ¬ (q.liA l.equation = 0 ∧ q.liB l.equation = 0)) (t : K) (h0 : 0 ≤ t) (h1 : t ≤ 1)
     (hon : l.vector.cross (q.sample t - l.point) = 0) : t ∈ q.lineIntersectionsT l := by
   unfold Quad.lineIntersectionsT
   have hv' : ¬ (l.vector.x == (Scalar.zero : K) && l.vector.y == (Scalar.zero : K)) = true := by
@@ -494,44 +706,12 @@ theorem quad_line_roots_complete (hsq : ∀ x : K, 0 ≤ x → Transc.sqrt x * T
   rw [quad_line_poly]
   exact (line_equation_iff l _ (hs1 _ hpos)).mpr hon
 
-/-- **The linear branch (`a = 0`, `b ≠ 0`) as the code has it**: the single candidate is `c / b`,
-i.e. the solution of `b·t − c = 0` — the equation to solve is `b·t + c = 0`.  It is returned
-iff it lies in `[0,1]`. -/
-theorem quad_solve_linear (b c : K) (hb : b ≠ 0) :
-    Quad.solve 0 b c = if 0 ≤ c / b ∧ c / b ≤ 1 then [c / b] else [] := by
-  unfold Quad.solve
-  have h0 : ((0:K) == (Scalar.zero : K)) = true := (beq_zero_iff _).mpr rfl
-  have hb' : ¬ (b == (Scalar.zero : K)) = true := fun h => hb ((beq_zero_iff _).mp h)
-  rw [if_pos h0, if_neg hb']
-  by_cases hu : inUnit (c / b) = true
-  · rw [if_pos hu, if_pos ((inUnit_iff _).mp hu)]
-  · rw [if_neg hu, if_neg (fun h => hu ((inUnit_iff _).mpr h))]
-
-/-- hence in the linear branch a returned parameter is a root of `b·t + c` only if `c = 0` -/
-theorem quad_solve_linear_root_iff (b c t : K) (hb : b ≠ 0) (ht : t ∈ Quad.solve 0 b c) :
-    (0 * t * t + b * t + c = 0 ↔ c = 0) := by
-  rw [quad_solve_linear b c hb] at ht
-  split at ht
-  · rw [List.mem_singleton] at ht
-    subst ht
-    rw [mul_div_cancel₀ _ hb]
-    constructor
-    · intro h; linarith
-    · intro h; rw [h]; ring
-  · cases ht
-
-/-- degenerate branch `a = 0`, `b = 0` (the curve is parallel to or inside the line): nothing -/
-theorem quad_solve_degenerate (c : K) : Quad.solve 0 0 c = [] := by
-  unfold Quad.solve
-  have h0 : ((0:K) == (Scalar.zero : K)) = true := (beq_zero_iff _).mpr rfl
-  rw [if_pos h0, if_pos h0]
-
 /-- discriminant-zero case of the quadratic branch: exactly one parameter is returned when the
 double root lies in `[0,1]` (the code's `t1 != t2` test removes the copy) -/
 theorem quad_solve_double_root (hsq : ∀ x : K, 0 ≤ x → Transc.sqrt x * Transc.sqrt x = x)
     (hs0 : ∀ x : K, 0 ≤ x → 0 ≤ Transc.sqrt x) (a b c : K) (ha : a ≠ 0)
     (hd : Quad.qDelta a b c = 0) (t : K) (ht : t ∈ Quad.solve a b c) : t = -b / (2 * a) := by
-  obtain ⟨_, _, hr⟩ := quad_solve_sound hsq a b c ha t ht
+  obtain ⟨_, _, hr⟩ := quad_solve_sound hsq a b c t ht
   have hΔ : Quad.qDelta a b c = b * b - 4 * a * c := by simp only [geom, Nat.cast_ofNat]
   rw [hΔ] at hd
   have h2 : (2 * a * t + b) * (2 * a * t + b) = 0 := by linear_combination (4 * a) * hr + hd
@@ -539,47 +719,11 @@ theorem quad_solve_double_root (hsq : ∀ x : K, 0 ≤ x → Transc.sqrt x * Tra
   rw [eq_div_iff (mul_ne_zero two_ne_zero ha)]
   linear_combination h3
 
-/-- **Witness (genuine defect, unsound)**: the parabola `(0,0) (1,1) (2,0)` against the vertical
-line `x = −1/2`: the code returns `t = 1/4`, whose point has `x = 1/2` — not on the line. -/
-theorem quad_line_linear_witness_unsound (hs1 : Transc.sqrt (1:K) = 1) :
-    (⟨⟨0, 0⟩, ⟨1, 1⟩, ⟨2, 0⟩⟩ : Quad K).lineIntersectionsT ⟨⟨-1/2, 0⟩, ⟨0, 1⟩⟩ = [1/4]
-    ∧ (⟨0, 1⟩ : P K).cross ((⟨⟨0, 0⟩, ⟨1, 1⟩, ⟨2, 0⟩⟩ : Quad K).sample (1/4) - ⟨-1/2, 0⟩) ≠ 0 := by
-  constructor
-  · unfold Quad.lineIntersectionsT
-    have hv : ¬ (((0:K) == (Scalar.zero : K)) && ((1:K) == (Scalar.zero : K))) = true := by
-      rw [Bool.and_eq_true, beq_zero_iff, beq_zero_iff]; norm_num
-    rw [if_neg hv]
-    have hsq1 : Transc.sqrt ((-1:K) * -1 + 0 * 0) = 1 := by norm_num [hs1]
-    have hA : Quad.liA (⟨⟨0, 0⟩, ⟨1, 1⟩, ⟨2, 0⟩⟩ : Quad K) (Line.equation ⟨⟨-1/2, 0⟩, ⟨0, 1⟩⟩) = 0 := by
-      simp only [geom, Nat.cast_one, hsq1]; norm_num
-    have hB : Quad.liB (⟨⟨0, 0⟩, ⟨1, 1⟩, ⟨2, 0⟩⟩ : Quad K) (Line.equation ⟨⟨-1/2, 0⟩, ⟨0, 1⟩⟩) = -2 := by
-      simp only [geom, Nat.cast_one, hsq1]; norm_num
-    have hC : Quad.liC (⟨⟨0, 0⟩, ⟨1, 1⟩, ⟨2, 0⟩⟩ : Quad K) (Line.equation ⟨⟨-1/2, 0⟩, ⟨0, 1⟩⟩) = -1/2 := by
-      simp only [geom, Nat.cast_one, hsq1]; norm_num
-    rw [hA, hB, hC, quad_solve_linear _ _ (by norm_num)]
-    norm_num
-  · simp only [geom, Nat.cast_one, Nat.cast_ofNat]; norm_num
-
-/-- **Witness (genuine defect, incomplete)**: same parabola, line `x = 1/2`: the crossing at
-`t = 1/4` (point `(1/2, 3/8)`, on the line) is not reported. -/
-theorem quad_line_linear_witness_incomplete (hs1 : Transc.sqrt (1:K) = 1) :
-    (⟨⟨0, 0⟩, ⟨1, 1⟩, ⟨2, 0⟩⟩ : Quad K).lineIntersectionsT ⟨⟨1/2, 0⟩, ⟨0, 1⟩⟩ = []
-    ∧ (⟨0, 1⟩ : P K).cross ((⟨⟨0, 0⟩, ⟨1, 1⟩, ⟨2, 0⟩⟩ : Quad K).sample (1/4) - ⟨1/2, 0⟩) = 0 := by
-  constructor
-  · unfold Quad.lineIntersectionsT
-    have hv : ¬ (((0:K) == (Scalar.zero : K)) && ((1:K) == (Scalar.zero : K))) = true := by
-      rw [Bool.and_eq_true, beq_zero_iff, beq_zero_iff]; norm_num
-    rw [if_neg hv]
-    have hsq1 : Transc.sqrt ((-1:K) * -1 + 0 * 0) = 1 := by norm_num [hs1]
-    have hA : Quad.liA (⟨⟨0, 0⟩, ⟨1, 1⟩, ⟨2, 0⟩⟩ : Quad K) (Line.equation ⟨⟨1/2, 0⟩, ⟨0, 1⟩⟩) = 0 := by
-      simp only [geom, Nat.cast_one, hsq1]; norm_num
-    have hB : Quad.liB (⟨⟨0, 0⟩, ⟨1, 1⟩, ⟨2, 0⟩⟩ : Quad K) (Line.equation ⟨⟨1/2, 0⟩, ⟨0, 1⟩⟩) = -2 := by
-      simp only [geom, Nat.cast_one, hsq1]; norm_num
-    have hC : Quad.liC (⟨⟨0, 0⟩, ⟨1, 1⟩, ⟨2, 0⟩⟩ : Quad K) (Line.equation ⟨⟨1/2, 0⟩, ⟨0, 1⟩⟩) = 1/2 := by
-      simp only [geom, Nat.cast_one, hsq1]; norm_num
-    rw [hA, hB, hC, quad_solve_linear _ _ (by norm_num)]
-    norm_num
-  · simp only [geom, Nat.cast_one, Nat.cast_ofNat]; norm_num
+/- Former witnesses of the linear-branch sign defect (repaired by lyon commit 37d6f3b8, "t = -c/b"):
+   parabola (0,0) (1,1) (2,0) against the vertical line x = -1/2 returned [1/4], whose point
+   (1/2, 3/8) is not on the line; against x = 1/2 it returned [] although t = 1/4 is a crossing.
+   Both were machine-checked here as `quad_line_linear_witness_unsound/_incomplete` while the
+   defect existed; `quad_solve_sound`/`quad_solve_complete` now cover the branch. -/
 
 end quad
 
@@ -653,24 +797,93 @@ theorem cubic_line_roots_in_range (c : Cubic K) (l : Line K) (t : K) (ht : t ∈
   unfold Cubic.lineIntersectionsT at ht
   split at ht
   · cases ht
-  · exact (inUnit_iff t).mp (List.mem_filter.mp ht).2
+  · split at ht
+    · cases ht
+    · unfold Cubic.lineRoots at ht
+      exact (inUnit_iff t).mp (List.mem_filter.mp ht).2
 
-/-- lines whose direction vector is short (`|v|² < EPSILON`) are answered with "no intersection" -/
-theorem cubic_line_short_vector_none (c : Cubic K) (l : Line K) (h : l.vector.sqLen < Eps.epsilon) :
-    c.lineIntersectionsT l = [] := by
+/-- in a field every length is finite: the query is "normalise, then solve", with the single
+exception of a zero length -/
+theorem cubic_line_unfold (hfin : ∀ x : K, Transc.isFinite x = true) (c : Cubic K) (l : Line K) :
+    c.lineIntersectionsT l = if Cubic.lineLen l = 0 then [] else c.lineRoots (Cubic.unitLine l) := by
   unfold Cubic.lineIntersectionsT
-  rw [if_pos h]
+  by_cases h : Cubic.lineLen l = 0
+  · rw [if_pos ((beq_zero_iff _).mpr h), if_pos h]
+  · rw [if_neg (fun hh => h ((beq_zero_iff _).mp hh)), if_neg h, hfin]
+    simp
 
-/-- **Witness (defect)**: with `EPSILON = 1e-4` the vertical line through `(3/2, 0)` given by the
-vector `(0, 1/200)` crosses the cubic `(0,0) (1,2) (2,-2) (3,0)` at `t = 1/2`, and nothing is
-reported. -/
-theorem cubic_line_short_vector_witness (he : (Eps.epsilon : K) = 1 / 10000) :
-    (⟨⟨0, 0⟩, ⟨1, 2⟩, ⟨2, -2⟩, ⟨3, 0⟩⟩ : Cubic K).lineIntersectionsT ⟨⟨3/2, 0⟩, ⟨0, 1/200⟩⟩ = []
-    ∧ (⟨0, 1/200⟩ : P K).cross ((⟨⟨0, 0⟩, ⟨1, 2⟩, ⟨2, -2⟩, ⟨3, 0⟩⟩ : Cubic K).sample (1/2) - ⟨3/2, 0⟩) = 0 := by
+/-- for a non-zero length the polynomial solved for the normalised line vanishes exactly at the
+parameters whose point lies on the ORIGINAL line -/
+theorem cubic_line_unit_on_line (c : Cubic K) (l : Line K) (t : K) (h : Cubic.lineLen l ≠ 0) :
+    c.liCoefA (Cubic.unitLine l) * t * t * t + c.liCoefB (Cubic.unitLine l) * t * t
+        + c.liCoefC (Cubic.unitLine l) * t + c.liCoefD (Cubic.unitLine l) = 0
+      ↔ l.vector.cross (c.sample t - l.point) = 0 := by
+  rw [cubic_line_poly, neg_eq_zero]
+  have e : (Cubic.unitLine l).vector.cross (c.sample t - (Cubic.unitLine l).point)
+      = l.vector.cross (c.sample t - l.point) / Cubic.lineLen l := by
+    simp only [Cubic.unitLine, P.cross, P.sdiv, P.sub_def]
+    field_simp
+  rw [e, div_eq_zero_iff]
   constructor
-  · apply cubic_line_short_vector_none
-    rw [he]; simp only [geom]; norm_num
-  · simp only [geom, Nat.cast_one, Nat.cast_ofNat]; norm_num
+  · rintro (h' | h')
+    · exact h'
+    · exact absurd h' h
+  · intro h'; exact Or.inl h'
+
+theorem sqrt_mul_sq (hs0 : ∀ x : K, 0 ≤ x → 0 ≤ Transc.sqrt x)
+    (hsq : ∀ x : K, 0 ≤ x → Transc.sqrt x * Transc.sqrt x = x) (k L : K) (hk : 0 ≤ k) (hL : 0 ≤ L) :
+    Transc.sqrt (k * k * L) = k * Transc.sqrt L := by
+  have hkL : 0 ≤ k * k * L := mul_nonneg (mul_nonneg hk hk) hL
+  have h1 := hsq _ hkL
+  have h2 := hsq _ hL
+  have ha := hs0 _ hkL
+  have hb : 0 ≤ k * Transc.sqrt L := mul_nonneg hk (hs0 _ hL)
+  have : (Transc.sqrt (k * k * L)) ^ 2 = (k * Transc.sqrt L) ^ 2 := by
+    rw [pow_two, h1, mul_pow, pow_two (Transc.sqrt L), h2]; ring
+  exact (sq_eq_sq₀ ha hb).mp this
+
+/-- a zero direction vector does not define a line: nothing is returned -/
+theorem cubic_line_zero_vector_none (hsq : ∀ x : K, 0 ≤ x → Transc.sqrt x * Transc.sqrt x = x)
+    (c : Cubic K) (l : Line K) (hx : l.vector.x = 0) (hy : l.vector.y = 0) :
+    c.lineIntersectionsT l = [] := by
+  have h0 : Cubic.lineLen l = 0 := by
+    unfold Cubic.lineLen
+    have e : l.vector.sqLen = 0 := by simp only [P.sqLen, hx, hy]; ring
+    rw [e]
+    exact mul_self_eq_zero.mp (hsq 0 (le_refl _))
+  unfold Cubic.lineIntersectionsT
+  rw [if_pos ((beq_zero_iff _).mpr h0)]
+
+/-- **The result does not depend on the (positive) length of the line's direction vector**
+(true since lyon commit ba950a71; before it every line with `|vector|² < EPSILON` got the answer
+"no intersection": witness cubic (0,0) (1,2) (2,-2) (3,0), line through (3/2,0) with vector
+(0,1/200), crossing at t = 1/2 — formerly `cubic_line_short_vector_witness`). -/
+theorem cubic_line_scale_invariant (hs0 : ∀ x : K, 0 ≤ x → 0 ≤ Transc.sqrt x)
+    (hsq : ∀ x : K, 0 ≤ x → Transc.sqrt x * Transc.sqrt x = x)
+    (hfin : ∀ x : K, Transc.isFinite x = true) (c : Cubic K) (l : Line K) (k : K) (hk : 0 < k) :
+    c.lineIntersectionsT ⟨l.point, l.vector.smul k⟩ = c.lineIntersectionsT l := by
+  have hL : 0 ≤ l.vector.sqLen := by
+    simp only [P.sqLen]; exact add_nonneg (mul_self_nonneg _) (mul_self_nonneg _)
+  have e1 : (l.vector.smul k).sqLen = k * k * l.vector.sqLen := by
+    simp only [P.sqLen, P.smul]; ring
+  have hlen : Cubic.lineLen ⟨l.point, l.vector.smul k⟩ = k * Cubic.lineLen l := by
+    unfold Cubic.lineLen
+    rw [e1]
+    exact sqrt_mul_sq hs0 hsq k _ hk.le hL
+  rw [cubic_line_unfold hfin, cubic_line_unfold hfin, hlen]
+  by_cases h0 : Cubic.lineLen l = 0
+  · rw [if_pos h0, if_pos (by rw [h0, mul_zero])]
+  · rw [if_neg h0, if_neg (mul_ne_zero hk.ne' h0)]
+    have eu : Cubic.unitLine ⟨l.point, l.vector.smul k⟩ = Cubic.unitLine l := by
+      unfold Cubic.unitLine
+      rw [hlen]
+      simp only [P.smul, P.sdiv, Line.mk.injEq, P.mk.injEq, true_and]
+      have hk' := hk.ne'
+      constructor <;> field_simp
+    rw [eu]
+
+/-- non-vacuity: `k = 1/200 > 0` (the former witness's scaling) -/
+example : (0:ℚ) < 1 / 200 := by norm_num
 
 end cubic
 
